@@ -40,6 +40,13 @@
         posted ([k_first]) a cancellation makes it post both at once (ECANCELED with F_MORE, then
         the notification); once only the notification is outstanding nothing can hurry it.
 
+    A third sort never gets in flight ([d_rej]): the kernel refuses the request while preparing it
+    (a descriptor that is not open, a path that does not exist, ...) and posts its only completion,
+    the error, at the moment it consumes the submission. The ring is set up with
+    IORING_SETUP_SUBMIT_ALL, so the submissions queued behind it are consumed by the same [enter];
+    without the flag the kernel would stop there ([execute_stop] / [consume_stop] below state that
+    kernel, for the refutation of seeded change C12-k).
+
     One model step = dropping one object, or the kernel taking the next step of one in-flight
     request ([KComplete]: the result of a two-step request whose result is due, else the final
     completion). Each step returns the log of what it did, including every access to a mapping
@@ -81,7 +88,8 @@ Record dims := {
   d_sqn : nat; d_cqn : nat;                       (* entries *)
   d_len_sq : N; d_len_sqes : N; d_len_cq : N;     (* lengths of the three mappings as mapped *)
   d_two : list nat;                               (* operations that complete in two steps (zero-copy sends) *)
-  d_surv : list nat                               (* operations the kernel does not cancel *)
+  d_surv : list nat;                              (* operations the kernel does not cancel *)
+  d_rej : list nat                                (* operations the kernel refuses when it consumes their submission *)
 }.
 
 Record state := {
@@ -276,9 +284,12 @@ Definition cancel_req (d : dims) (k : kern) (o : nat) : kern :=
 Definition execute (d : dims) (k : kern) (q : sqe) : kern :=
   match q with
   | SClose _ => k
-  | SOp o => {| k_sqq := k_sqq k; k_inflight := k_inflight k ++ [o];
-                k_first := if mem_nat o (d_two d) then k_first k ++ [o] else k_first k;
-                k_cq := k_cq k; k_ovf := k_ovf k |}
+  | SOp o =>
+      if mem_nat o (d_rej d)
+      then post (d_cqn d) k (COp o)
+      else {| k_sqq := k_sqq k; k_inflight := k_inflight k ++ [o];
+              k_first := if mem_nat o (d_two d) then k_first k ++ [o] else k_first k;
+              k_cq := k_cq k; k_ovf := k_ovf k |}
   | SCancel o =>
       if cancelable d k o
       then cancel_req d k o
@@ -290,6 +301,21 @@ Definition consume_all (d : dims) (k : kern) : kern :=
   fold_left (execute d)
             (k_sqq k)
             {| k_sqq := []; k_inflight := k_inflight k; k_first := k_first k; k_cq := k_cq k; k_ovf := k_ovf k |}.
+
+(** A kernel whose ring was set up WITHOUT IORING_SETUP_SUBMIT_ALL (not the code as it is: kept for
+    the refutation of seeded change C12-k): [enter] stops consuming after the first submission it
+    refuses (the refused one is consumed and answered, what is queued behind it stays queued). *)
+Fixpoint consume_stop_from (d : dims) (q : list sqe) (k : kern) : kern :=
+  match q with
+  | [] => {| k_sqq := []; k_inflight := k_inflight k; k_first := k_first k; k_cq := k_cq k; k_ovf := k_ovf k |}
+  | SOp o :: r =>
+      if mem_nat o (d_rej d)
+      then let k1 := post (d_cqn d) k (COp o) in
+           {| k_sqq := r; k_inflight := k_inflight k1; k_first := k_first k1; k_cq := k_cq k1; k_ovf := k_ovf k1 |}
+      else consume_stop_from d r (execute d k (SOp o))
+  | x :: r => consume_stop_from d r (execute d k x)
+  end.
+Definition consume_stop (d : dims) (k : kern) : kern := consume_stop_from d (k_sqq k) k.
 
 (** REGISTER_SYNC_CANCEL(ANY|ALL): every request in flight that can be cancelled, in order. What
     cannot be cancelled stays in flight (the call then fails with ETIME after its timeout; the
@@ -404,6 +430,19 @@ Definition drop_ring_fixed (s : state) : state * list lev :=
     let '(s5, l5) := dec_shared (set_ring s4 false) in
     (s5, l1 ++ [LRegister RSyncCancel] ++ l4 ++ [LMunmap MCq (d_len_cq (s_d s))] ++ l5)
   else (s, []).
+
+(** The kernel's side of [Drop for Ring] over an arbitrary way [cons] of consuming the submission
+    queue: the flush, the blanket cancellation, then [n] further [enter]s of the drain (the handler
+    only empties the completion ring in between, which does not matter for what is in flight). *)
+Fixpoint enters (cons : kern -> kern) (cqn n : nat) (k : kern) : kern :=
+  match n with
+  | 0 => k
+  | S m => enters cons cqn m
+             (let k1 := flush_overflow cqn (cons k) in
+              {| k_sqq := k_sqq k1; k_inflight := k_inflight k1; k_first := k_first k1; k_cq := []; k_ovf := k_ovf k1 |})
+  end.
+Definition ring_drop_kernel (cons : dims -> kern -> kern) (d : dims) (n : nat) (k : kern) : kern :=
+  enters (cons d) (d_cqn d) n (sync_cancel d (flush_overflow (d_cqn d) (cons d k))).
 
 (** * Events *)
 Inductive obj := ORing | OClone (c : nat) | OFd (h : nat) | OOp (o : nat) | OPool (p : nat) | OBuf (b : nat).
